@@ -26,7 +26,8 @@ deduplicated by canonical state.  After every step, for EVERY live metamodel k
        replaced by place-holders numbered by first occurrence before texts and snapshots are compared).
 
 Route family: the texts arrive through files (filename_input under several spellings of one path, file_input, input)
-and the file is rewritten between the calls; split family: classes, association and rows arrive in separate chunks
+and the file is rewritten between the calls; handle family: file_input with file objects that are not at position 0 (one
+handle kept open while the file grows, handles the caller advanced, exhausted handles); split family: classes, association and rows arrive in separate chunks
 in any order with builds (also refused ones) in between.  Same oracles.
 
 Identity facts (which attribute lists, key lists, index dictionaries, metaclasses, instances are the same
@@ -54,6 +55,12 @@ ASSUMPTIONS = [
     'of the same text; at most 3 (quick) / 4 (thorough) accepted inputs, one rejected; two live metamodels; mutations new / '
     'delete / relate; depth 5 / 6. The replica is a fresh loader given the texts the file held at each accepted call, '
     'through input()',
+    'handle family: file_input with file objects at any position. A file object contributes what is read from its current '
+    'position to its end: one handle is opened when the file holds its first chunk and stays open while chunks are appended to '
+    'the file (each at most once, at most 3 (quick) / 4 (thorough) in the file), the caller may read lines from it, and it is given '
+    'to the loader any number of times (also exhausted); new handles are advanced by 1 (quick) / 0-2 (thorough) lines first. At '
+    'most 3 / 4 accepted inputs, one rejected; two live metamodels; mutations delete (quick) / delete, relate (thorough); depth 5 / 6. The replica is a fresh loader given, '
+    'through input(), the text between the position of the handle and the end of the file at each accepted call',
     'split family: the schema of the main search in separate chunks (class A + identifier, class B, the association, rows), each '
     'at most once in any order, builds in between -- builds the library refuses (association before its class) included, at '
     'most two per history, counted in the canonical state; mutations delete / relate / unrelate; depth 6 / 7',
@@ -273,6 +280,10 @@ class LoaderModel(explorer.Model):
             c['family'] = self.family
         return c
 
+    def text_of(self, entry):
+        '''An accepted input is recorded as the index of its chunk, or (handle family) as the text itself.'''
+        return self.chunks[entry] if isinstance(entry, int) else entry
+
     def gen_mode(self, w):
         k = len(w.mms)
         return self.gens[k] if k < len(self.gens) else 'explicit'
@@ -309,7 +320,7 @@ class LoaderModel(explorer.Model):
             # reference first: a fresh loader fed exactly the accepted chunks, built once
             fresh = xtuml.ModelLoader()
             for i in w.accepted:
-                fresh.input(self.chunks[i])
+                fresh.input(self.text_of(i))
             explicit = self.gen_mode(w) == 'explicit'
             try:
                 replica = fresh.build_metamodel(xtuml.IntegerGenerator()) if explicit else fresh.build_metamodel()
@@ -550,7 +561,19 @@ def unit_test(model, hist, op):
                   "def write(i):\n    with open(path, 'w') as f: f.write(chunks[i])\n    return i",
                   'content = write(1)']
 
+    if model.family == 'handles':
+        lines += ['import os, tempfile', "path = os.path.join(tempfile.mkdtemp(), 'data.sql')",
+                  "with open(path, 'w') as f: f.write(chunks[1])",
+                  'h = open(path)          # the handle that stays open',
+                  'def skip(n):\n    f = open(path)\n    for _ in range(n): f.readline()\n    return f']
+
     def stmt(o):
+        if o[0] == 'append':
+            return "with open(path, 'a') as f: f.write(chunks[%d])" % o[1]
+        if o[0] == 'advance':
+            return 'h.readline()'
+        if o[0] == 'file_input' and model.family == 'handles':
+            return 'try: l.file_input(%s)\nexcept xtuml.ParsingException: pass' % ('h' if o[1] == 'same' else 'skip(%d)' % o[2])
         if o[0] == 'write':
             return 'content = write(%d)' % o[1]
         if o[0] == 'filename_input':
@@ -741,7 +764,151 @@ class SplitModel(LoaderModel):
         return json.dumps([getattr(w, 'refused', 0), LoaderModel.canon(self, w)])
 
 
-FAMILY_MODELS = {'routes': RouteModel, 'split': SplitModel}
+# ---------------------------------------------------------------------------------------------------------------------
+# handle family (part of the route exploration): file_input with file objects that are NOT at position 0 -- one handle
+# kept open and given to the loader again after the file grew, a handle the caller advanced past the first statement(s),
+# an exhausted handle.  A file object contributes what is read from its current position to its end.
+# ---------------------------------------------------------------------------------------------------------------------
+HANDLE_DEPTH = {'quick': 5, 'thorough': 6}
+HANDLE_MAX_INPUTS = {'quick': 3, 'thorough': 4}
+HANDLE_MUTS = {'quick': ('delete',), 'thorough': ('delete', 'relate')}
+HANDLE_SKIPS = {'quick': (1,), 'thorough': (0, 1, 2)}
+HANDLE_MAX_CHUNKS = {'quick': 3, 'thorough': 4}
+BAD_MARK = 'CREATE TABLE ;'
+_handle_worlds = 0
+
+
+def after_lines(text, pos, n):
+    '''Position after n readline() calls from pos.'''
+    for _ in range(n):
+        k = text.find('\n', pos)
+        pos = len(text) if k < 0 else k + 1
+    return pos
+
+
+class HandleModel(LoaderModel):
+    family = 'handles'
+    prefix = 'handles:'
+
+    def __init__(self, tier, seed=0):
+        LoaderModel.__init__(self, tier, seed, max_mm=2, cap_new=1)
+        self.max_inputs = HANDLE_MAX_INPUTS[tier]
+        self.mut_names = HANDLE_MUTS[tier]
+        self.skips = HANDLE_SKIPS[tier]
+        self.max_chunks = HANDLE_MAX_CHUNKS[tier]
+
+    def build(self, hist):
+        import os
+        import shutil
+        import xtuml
+        from mc import bootstrap
+        global _handle_worlds
+        _handle_worlds += 1
+        top = os.path.join(bootstrap.tmpdir(), 'c18-handles-%d' % os.getpid())
+        d = os.path.join(top, 'w%d' % _handle_worlds)
+        os.makedirs(d, exist_ok=True)
+        shutil.rmtree(os.path.join(top, 'w%d' % (_handle_worlds - 3)), ignore_errors=True)
+        w = World()
+        w.path = os.path.join(d, 'data.sql')
+        with open(w.path, 'w') as f:
+            f.write(self.chunks[1])            # the file holds the first chunk of rows
+        w.file_chunks = [1]
+        w.content = self.chunks[1]             # reference: what the file holds
+        w.handle = open(w.path, 'r')           # the one handle that stays open
+        w.pos = 0                              # reference: how far that handle has been read
+        w.loader = xtuml.ModelLoader()
+        w.accepted = []
+        w.rejected = 0
+        w.mms = []
+        w.last_from = None
+        for op in hist:
+            self.step(w, op)
+        return w
+
+    def step(self, w, op):
+        if op[0] == 'append':
+            with open(w.path, 'a') as f:
+                f.write(self.chunks[op[1]])
+            w.file_chunks.append(op[1])
+            w.content += self.chunks[op[1]]
+            return 'ok', 'ok'
+        if op[0] == 'advance':
+            # the caller reads one line from the open handle
+            got = w.handle.readline()
+            new = after_lines(w.content, w.pos, 1)
+            exp = w.content[w.pos:new]
+            w.pos = new
+            return repr(got), repr(exp)
+        if op[0] == 'file_input':
+            if op[1] == 'same':
+                f, start = w.handle, w.pos
+                w.pos = len(w.content)
+            else:
+                f = open(w.path, 'r')
+                for _ in range(op[2]):
+                    f.readline()
+                start = after_lines(w.content, 0, op[2])
+            text = w.content[start:]
+            w.last_from = start
+            exp = 'ParsingException' if BAD_MARK in text else 'ok'
+            try:
+                w.loader.file_input(f)
+                got = 'ok'
+                w.accepted.append(text)
+            except Exception as e:
+                got = type(e).__name__
+                w.rejected += 1
+            finally:
+                if f is not w.handle:
+                    f.close()
+            return got, exp
+        return LoaderModel.step(self, w, op)
+
+    def input_ops(self, w):
+        ops = []
+        for i in range(len(self.chunks)):
+            if i not in w.file_chunks and not (i == BAD and w.rejected) and len(w.file_chunks) < self.max_chunks:
+                ops.append(['append', i])
+        if w.pos < len(w.content):
+            ops.append(['advance'])
+        if len(w.accepted) < self.max_inputs:
+            cands = [(['file_input', 'same'], w.pos)]
+            for n in self.skips:
+                start = after_lines(w.content, 0, n)
+                if n == 0 or start < len(w.content):
+                    cands.append((['file_input', 'skip', n], start))
+            for op, start in cands:
+                # one rejected input per history
+                if not (w.rejected and BAD_MARK in w.content[start:]):
+                    ops.append(op)
+        if len(w.mms) < self.max_mm:
+            ops.append(['build'])
+        return ops
+
+    def apply(self, ctx, w, op, hist):
+        ok = LoaderModel.apply(self, ctx, w, op, hist)
+        if op[0] == 'file_input':
+            ctx.count('handle_inputs')
+            if w.last_from:
+                ctx.count('handle_inputs_not_from_position_0')
+                if op[1] == 'same' and len(w.file_chunks) > 1:
+                    ctx.count('handle_inputs_same_handle_after_the_file_grew')
+            if w.last_from == len(w.content):
+                ctx.count('handle_inputs_exhausted_handle')
+            if w.mms:
+                ctx.count('handle_inputs_after_a_build')
+        return ok
+
+    def canon(self, w):
+        import xtuml
+        mm = []
+        for e in w.mms:
+            mm.append([core.h64(json.dumps(e.chunks)), core.h64(json.dumps(self.obs(xtuml, e.replica))), gen_facts(xtuml, e.replica),
+                       sorted((kd, sum(1 for o in e.muts if o[2] == 'new' and o[3] == kd)) for kd in (self.p['A'], self.p['B']))])
+        return json.dumps([w.file_chunks, w.pos, core.h64(json.dumps(w.accepted)), w.rejected, mm, self.sharing(w)])
+
+
+FAMILY_MODELS = {'routes': RouteModel, 'split': SplitModel, 'handles': HandleModel}
 
 
 DEPTH = {'quick': 6, 'thorough': 7}
@@ -771,7 +938,7 @@ def run(ctx):
         ctx.count('generator_family_states', r2['states'])
     # route family and split family
     before = dict(ctx.counts)
-    for fam, depth in (('routes', ROUTE_DEPTH[ctx.tier]), ('split', SPLIT_DEPTH[ctx.tier])):
+    for fam, depth in (('routes', ROUTE_DEPTH[ctx.tier]), ('handles', HANDLE_DEPTH[ctx.tier]), ('split', SPLIT_DEPTH[ctx.tier])):
         fm = FAMILY_MODELS[fam](ctx.tier, ctx.seed)
         r3 = explorer.bfs(ctx, fm, max_depth=depth, chunk=8, label=fam)
         print('  %s family: states=%d depth=%d closed=%s t=%.0fs' % (fam, r3['states'], r3['depth'], r3['closed'], ctx.elapsed()),
@@ -786,6 +953,11 @@ def run(ctx):
     ctx.require(ctx.n('routes_family_builds_compared') >= 60, 'route family: too few builds compared (%d)' %
                 ctx.n('routes_family_builds_compared'))
     ctx.require(ctx.n('routes_family_builds_after_further_input') >= 10, 'route family: too few builds after further input')
+    ctx.require(ctx.n('handles_family_builds_compared') >= 60, 'handle family: too few builds compared (%d)' %
+                ctx.n('handles_family_builds_compared'))
+    for key, least in (('handle_inputs_not_from_position_0', 100), ('handle_inputs_same_handle_after_the_file_grew', 30),
+                       ('handle_inputs_exhausted_handle', 10), ('handle_inputs_after_a_build', 30)):
+        ctx.require(ctx.n(key) >= least, 'handle family: %s = %d (< %d)' % (key, ctx.n(key), least))
     ctx.require(ctx.n('split_family_builds_rejected') >= 20, 'split family: too few refused builds (%d)' %
                 ctx.n('split_family_builds_rejected'))
     ctx.require(ctx.n('split_family_builds_compared') >= 100, 'split family: too few builds compared (%d)' %
@@ -824,7 +996,7 @@ def coverage(ctx):
              'every live metamodel is compared (non-interference + fresh-loader replica, incl. the id its generator hands '
              'out next); states / transitions include the generator family (same search, every pattern of explicit / default '
              'id generators over the builds, to its own depth bound), the route family (file-based input routes, file rewritten '
-             'between calls) and the split family (schema statement by statement, refused builds in between)',
+             'between calls), the handle family (file objects at other positions than 0) and the split family (schema statement by statement, refused builds in between)',
         differential_comparisons=ctx.n('differential_comparisons'),
         noninterference_comparisons=ctx.n('noninterference_comparisons'),
         builds_compared=ctx.n('builds_compared'),
@@ -846,6 +1018,16 @@ def coverage(ctx):
                           builds_compared=ctx.n('routes_family_builds_compared'),
                           builds_after_further_input=ctx.n('routes_family_builds_after_further_input'),
                           search=ctx.notes.get('routes')),
+        handle_family=dict(states=ctx.n('handles_family_states'), transitions=ctx.n('handles_family_traces'), depth=HANDLE_DEPTH[ctx.tier],
+                           handles=['the one handle kept open since the file held its first chunk (given again after the file grew, '
+                                    'after the caller read lines from it, when exhausted)',
+                                    'a new handle advanced by %s lines' % (HANDLE_SKIPS[ctx.tier],)],
+                           accepted_inputs_at_most=HANDLE_MAX_INPUTS[ctx.tier], chunks_in_the_file_at_most=HANDLE_MAX_CHUNKS[ctx.tier],
+                           mutations=list(HANDLE_MUTS[ctx.tier]),
+                           file_inputs=ctx.n('handle_inputs'), not_from_position_0=ctx.n('handle_inputs_not_from_position_0'),
+                           same_handle_after_the_file_grew=ctx.n('handle_inputs_same_handle_after_the_file_grew'),
+                           exhausted_handle=ctx.n('handle_inputs_exhausted_handle'), after_a_build=ctx.n('handle_inputs_after_a_build'),
+                           builds_compared=ctx.n('handles_family_builds_compared'), search=ctx.notes.get('handles')),
         split_family=dict(states=ctx.n('split_family_states'), transitions=ctx.n('split_family_traces'), depth=SPLIT_DEPTH[ctx.tier],
                           chunks=['class A + identifier', 'class B', 'association', 'rows'], mutations=list(SPLIT_MUTS),
                           refused_builds_per_history_at_most=SPLIT_MAX_REFUSED,
